@@ -388,11 +388,12 @@ def chi2_check(c, cfg, r):
     stat = sum((k - e) ** 2 / e for e, k in big)
     dof = len(big) - 1
     thr = float(chi2.isf(1e-9, dof))
-    # samples within the polygonisation margin of a disc / sector boundary were left out by impl_c03 (counted in near_boundary):
-    # a single boundary sample must not fail the test, but no more of them than the excluded rings can hold (3 x their share + 20)
+    # samples that miss the cells (cut from the POLYGONS) but lie within the polygonisation margin of a disc / sector boundary are counted
+    # apart by impl_c03 (near_boundary), not as `outside`: a single boundary sample must not fail the test, but there may be no more of
+    # them than the rings along those boundaries can hold (3 x their share of the region + 20)
     near = cells.get("near_boundary", 0)
     ntot = n + near
-    allowed = 20 + 3 * ntot * cells.get("ring_area", 0.0) / cells["area"] if cells.get("area") else 0
+    allowed = 20 + 3 * ntot * min(1.0, cells.get("ring_area", 0.0) / cells["area"]) if cells.get("area") else 0
     return dict(stat=stat, dof=dof, threshold=thr, n=n, outside=cells["outside"], near_boundary=near, near_allowed=allowed,
                 ok=stat <= thr and cells["outside"] == 0 and near <= allowed)
 
@@ -622,8 +623,8 @@ def main():
             chi.append(dict(config=cfg["id"], kinds=kinds, cls=r["class"], **{k: (round(v, 2) if isinstance(v, float) else v) for k, v in x.items()}))
             if not x["ok"]:
                 c.violation("uniformity", f"{kinds}: chi^2 uniformity test fails (statistic {x['stat']:.1f} vs threshold {x['threshold']:.1f}, dof {x['dof']}, "
-                            f"{x['outside']} samples clear of every boundary yet outside the region's cells, {x['near_boundary']} within the polygonisation "
-                            f"margin of a disc / sector boundary (allowed {x['near_allowed']:.0f}))", dict(base, result_class=r["class"], chi2=x))
+                            f"{x['outside']} samples clear of every boundary yet outside the region's cells, {x['near_boundary']} outside the cells but within the "
+                            f"polygonisation margin of a disc / sector boundary (allowed {x['near_allowed']:.0f}))", dict(base, result_class=r["class"], chi2=x))
     # ---- placement: MeshRegion.mesh / sampleGiven vs the model C03.Placement.place (vertices of the placed mesh)
     pcfgs = [cfg for cfg in cconfigs if cfg["kind"] == "scen" and cfg["family"] == "mesh" and cfg["region"]["shape"] != "sphere"][:12 if quick else 60]
     if pcfgs:
